@@ -14,6 +14,10 @@ import ast
 
 from ..core import AnalysisError, norm, loc, walk_no_nested, attr_chain, call_name, kwarg
 from ..schema import containment_schema
+from ..normalize import inline, canon, conjuncts, local_env, expand, ctext
+from ..core import func_params
+from ..cfg import CFG
+from .. import flow
 
 APG = 'fim.graph.abc_property_graph:ABCPropertyGraph'
 REMOVERS = {
@@ -67,6 +71,9 @@ def run(prog, rep):
                         detail = (tgt_owner, srcs, a)
                         if srcs == [owner] and a.lineno > rc.lineno:
                             ok = True
+                if not ok and detail is None and _never_cached(fn, rc, rid):
+                    rep.instance('R1', f'{fq}: removal of {rid_txt}: the element was created here and is not yet on any handle cache when it is removed')
+                    continue
                 rep.instance('R1', f'{fq}: removal of {rid_txt} on {owner}: cache filter {"ok" if ok else ("wrong" if detail else "missing")}')
                 if ok:
                     continue
@@ -141,30 +148,102 @@ def run(prog, rep):
         rep.violation('R2', loc(iface.module, rci), 'Interface.remove_child_interface', 'child not looked up under this interface', 'the child must be found among the children of this interface')
 
     # ---- R4 ----
-    sites = [('fim.user.topology:Topology', 'remove_node', 'remove_network_node_with_components_nss_cps_and_links'),
-             ('fim.user.topology:Topology', 'remove_facility', 'remove_network_node_with_components_nss_cps_and_links'),
-             ('fim.user.node:Node', 'remove_component', 'remove_component_with_nss_cps_and_links')]
-    for spec, name, remover in sites:
+    sites = [('fim.user.topology:Topology', 'remove_node', 'remove_network_node_with_components_nss_cps_and_links', ('nodes',)),
+             ('fim.user.topology:Topology', 'remove_facility', 'remove_network_node_with_components_nss_cps_and_links', ('facilities', 'nodes')),
+             ('fim.user.node:Node', 'remove_component', 'remove_component_with_nss_cps_and_links', ('components',))]
+    for spec, name, remover, colls in sites:
         cls = prog.cls(spec)
-        fn = cls.methods.get(name)
-        if fn is None:
+        fn0 = cls.methods.get(name)
+        if fn0 is None:
             raise AnalysisError(f'{cls.qual}.{name} vanished')
+        fn = inline(prog, cls, fn0)
+        env = local_env(fn)
         fq = f'{cls.name}.{name}'
+        nparam = [p_ for p_ in func_params(fn) if p_ != 'self'][0]
         rm = [c for c in walk_no_nested(fn) if isinstance(c, ast.Call) and call_name(c) == remover]
-        loops = [l for l in walk_no_nested(fn) if isinstance(l, ast.For) and 'interface_list' in ast.unparse(l.iter)]
-        disc = [c for l in loops for c in ast.walk(l) if isinstance(c, ast.Call) and call_name(c) == 'disconnect_interface']
-        peers = [c for l in loops for c in ast.walk(l) if isinstance(c, ast.Call) and call_name(c) == 'get_peers' and
-                 'ServicePort' in ast.unparse(c)]
-        rep.instance('R4', f'{fq}: loop over {norm(loops[0].iter) if loops else None}; disconnects={len(disc)}; removal {remover}={len(rm)}')
-        ok = bool(rm) and bool(loops) and bool(disc) and bool(peers) and loops[0].lineno < rm[0].lineno
+
+        def own_interfaces(it):
+            """is `it` the interface list of exactly the element named by the parameter?  self.<coll>[<name>].interface_list"""
+            e = expand(it, env)
+            if isinstance(e, ast.Call) and isinstance(e.func, ast.Name) and e.func.id in ('list', 'tuple') and len(e.args) == 1:
+                e = e.args[0]
+            if not (isinstance(e, ast.Attribute) and e.attr in ('interface_list', 'interfaces')):
+                return None
+            base = e.value
+            if e.attr == 'interfaces' and isinstance(base, ast.Call):
+                return None
+            if isinstance(base, ast.Subscript) and isinstance(base.slice, ast.Name) and base.slice.id == nparam and \
+                    isinstance(base.value, ast.Attribute) and isinstance(base.value.value, ast.Name) and base.value.value.id == 'self':
+                return base.value.attr
+            if isinstance(base, ast.Call) and call_name(base) in ('_get_node_by_name', 'get_node_by_name') and \
+                    any(isinstance(a_, ast.Name) and a_.id == nparam for a_ in list(base.args) + [k.value for k in base.keywords]):
+                return 'nodes'
+            return '?' + ast.unparse(base)
+        loops = [(l, own_interfaces(l.iter)) for l in walk_no_nested(fn) if isinstance(l, ast.For) and isinstance(l.target, ast.Name)]
+        loops = [(l, w) for l, w in loops if w is not None and any(isinstance(c, ast.Call) and call_name(c) == 'disconnect_interface' for c in ast.walk(l))]
+        rep.instance('R4', f'{fq}: disconnect loop over {norm(loops[0][0].iter) if loops else None} ({loops[0][1] if loops else None}); removal {remover}={len(rm)}')
+        ok = bool(rm) and bool(loops)
+        why = 'peers not disconnected before the removal'
         if ok:
-            d = disc[0]
-            ok = ast.unparse(d.args[0] if d.args else ast.Constant(None)) == ast.unparse(loops[0].target) and \
-                'get_parent_element(peers[0])' in ast.unparse(d.func)
+            l, which = loops[0]
+            v = l.target.id
+            if which not in colls:
+                ok = False
+                why = f'the disconnect loop ranges over {norm(l.iter, 60)}, not over the interfaces of the element being removed'
+            peers = {}
+            for n_ in ast.walk(l):
+                if isinstance(n_, ast.Assign) and isinstance(n_.value, ast.Call) and call_name(n_.value) == 'get_peers' and \
+                        isinstance(n_.value.func.value, ast.Name) and n_.value.func.value.id == v and isinstance(n_.targets[0], ast.Name) and \
+                        any(isinstance(x, ast.Attribute) and x.attr == 'ServicePort' for x in ast.walk(n_.value)):
+                    peers[n_.targets[0].id] = n_
+            disc = [c for c in ast.walk(l) if isinstance(c, ast.Call) and call_name(c) == 'disconnect_interface']
+            good = False
+            for d in disc:
+                a0 = d.args[0] if d.args else (d.keywords[0].value if d.keywords else None)
+                recv = d.func.value
+                lenv = {k: val for k, val in local_env(l).items() if k not in peers}
+                recv = expand(recv, lenv)
+                if isinstance(a0, ast.Name) and a0.id == v and isinstance(recv, ast.Call) and call_name(recv) == 'get_parent_element' and recv.args:
+                    r0 = expand(recv.args[0], {k: val for k, val in lenv.items() if k not in peers})
+                    if isinstance(r0, ast.Subscript) and isinstance(r0.value, ast.Name) and r0.value.id in peers and \
+                            isinstance(r0.slice, ast.Constant) and r0.slice.value == 0:
+                        good = True
+            if ok and not good:
+                ok = False
+                why = 'the interface is not disconnected through the service that owns its ServicePort peer'
+            if ok:
+                cfg = CFG(fn)
+                dom = cfg.dominators()
+                head = [nd for nd in cfg.nodes if nd.kind == 'test' and nd.tag == 'for' and nd.ast is l]
+                rn = flow.node_of(cfg, rm[0])
+                if not head or rn is None or rn.id not in dom or head[0].id not in dom[rn.id]:
+                    ok = False
+                    why = 'the removal is reachable without running the disconnect loop'
         if not ok:
-            rep.violation('R4', loc(cls.module, fn), fq, 'peers not disconnected before the removal',
+            rep.violation('R4', loc(cls.module, fn), fq, why,
                           f'{fq} must, for every interface of the element, disconnect it from the service that owns its ServicePort '
-                          f'peer before removing the element; otherwise the service-side port and link stay behind')
+                          f'peer before removing the element; otherwise the service-side port and link stay behind'
+                          if 'not over' not in why else
+                          f'{fq}: {why}: interfaces that belong to other parts of the node are disconnected from their services as well, '
+                          f'although only this element is being removed')
+    # disconnect_interface removes exactly the peer it found
+    nsc = prog.cls('fim.user.network_service:NetworkService')
+    di = inline(prog, nsc, nsc.methods['disconnect_interface'])
+    denv = local_env(di)
+    iparam = [p_ for p_ in func_params(di) if p_ != 'self'][0]
+    for c in walk_no_nested(di):
+        if isinstance(c, ast.Call) and call_name(c) == 'remove_cp_and_links':
+            rid = kwarg(c, 'node_id') or (c.args[0] if c.args else None)
+            e = expand(rid, denv)
+            good = isinstance(e, ast.Attribute) and e.attr == 'node_id' and isinstance(e.value, ast.Subscript) and \
+                isinstance(e.value.slice, ast.Constant) and e.value.slice.value == 0 and isinstance(e.value.value, ast.Call) and \
+                call_name(e.value.value) == 'get_peers' and isinstance(e.value.value.func.value, ast.Name) and e.value.value.func.value.id == iparam
+            rep.instance('R4', f'NetworkService.disconnect_interface removes {norm(e, 70)}')
+            if not good:
+                rep.violation('R4', loc(nsc.module, c), 'NetworkService.disconnect_interface', f'removes {norm(rid, 60)} rather than the peer found for the interface',
+                              'disconnect_interface must delete exactly the ServicePort that get_peers() reports for the given interface (by its node id); '
+                              'a port looked up some other way (e.g. by name) can be a different port of the service, whose peering is then '
+                              'deleted while the requested interface stays connected')
     # remove_switch delegates to remove_node
     topo = prog.cls('fim.user.topology:Topology')
     rs = topo.methods.get('remove_switch')
@@ -175,63 +254,179 @@ def run(prog, rep):
 
 def check_cp_remover(prog, rep, rule):
     """remove_cp_and_links: collects the four neighbour lists through schema pairs, iterates all of them and applies the two
-    sharing conditions with their exact comparators (shared with C07: removal must not orphan interfaces)."""
+    sharing conditions with their exact comparators (shared with C07: removal must not orphan interfaces).
+    Roles are assigned by data flow (what each lookup starts from), not by variable names; helpers are inlined."""
     apg = prog.cls(APG)
     amod = apg.module
     schema = containment_schema(prog)
-    # remove_cp_and_links
-    rc = apg.methods.get('remove_cp_and_links')
-    if rc is None:
+    rc0 = apg.methods.get('remove_cp_and_links')
+    if rc0 is None:
         raise AnalysisError('remove_cp_and_links vanished')
+    rc = inline(prog, apg, rc0)
     fq = 'ABCPropertyGraph.remove_cp_and_links'
-    assigns = {}
-    for n in ast.walk(rc):
-        if isinstance(n, ast.Assign) and isinstance(n.value, ast.Call) and call_name(n.value) == 'get_first_neighbor':
-            assigns[n.targets[0].id] = (n, schema.pairs_of_call(n.value, apg)[0])
-    rep.instance(rule, f'{fq}: neighbour lists {[(k, v[1]) for k, v in assigns.items()]}')
+    params = func_params(rc)
+    idp = [p_ for p_ in params if p_ not in ('self', 'delete_parent')]
+    if not idp:
+        raise AnalysisError(f'{fq}: node id parameter not found')
+    idp = idp[0]
+    # alias groups of plain name-to-name assignments
+    alias = {}
+
+    def find(x):
+        while alias.get(x, x) != x:
+            x = alias[x]
+        return x
+    for n in walk_no_nested(rc):
+        if isinstance(n, ast.Assign) and len(n.targets) == 1 and isinstance(n.targets[0], ast.Name) and isinstance(n.value, ast.Name):
+            alias[find(n.targets[0].id)] = find(n.value.id)
+    same = lambda x, y: find(x) == find(y)
+    loops = [l for l in walk_no_nested(rc) if isinstance(l, ast.For) and isinstance(l.target, ast.Name)]
+
+    def loop_source(var):
+        """name of the collection a loop variable ranges over (None if `var` is not a loop variable)"""
+        for l in loops:
+            if l.target.id == var:
+                names = [x.id for x in ast.walk(l.iter) if isinstance(x, ast.Name)]
+                return names[0] if names else None
+        return None
+    lookups = []
+    for n in walk_no_nested(rc):
+        if isinstance(n, ast.Assign) and isinstance(n.value, ast.Call) and call_name(n.value) == 'get_first_neighbor' and isinstance(n.targets[0], ast.Name):
+            src = kwarg(n.value, 'node_id') or (n.value.args[0] if n.value.args else None)
+            lookups.append((n.targets[0].id, n, schema.pairs_of_call(n.value, apg)[0], src.id if isinstance(src, ast.Name) else None))
+    roles = {}
+    for var, n, pr, src in lookups:
+        if src is not None and same(src, idp) and pr == ('connects', 'ConnectionPoint'):
+            roles['parents'] = (var, n, pr)
+    for var, n, pr, src in lookups:
+        ls = loop_source(src) if src else None
+        if ls is None:
+            continue
+        if 'parents' in roles and same(ls, roles['parents'][0]) and pr == ('connects', 'ConnectionPoint'):
+            roles['children'] = (var, n, pr)
+        elif pr == ('connects', 'Link'):
+            roles['links'] = (var, n, pr)
+    for var, n, pr, src in lookups:
+        ls = loop_source(src) if src else None
+        if ls is not None and 'links' in roles and same(ls, roles['links'][0]) and pr == ('connects', 'ConnectionPoint'):
+            roles['connected_interfaces'] = (var, n, pr)
+    rep.instance(rule, f'{fq}: neighbour lists {[(k, v[0], v[2]) for k, v in roles.items()]} of {len(lookups)} lookups')
     want = {'parents': ('connects', 'ConnectionPoint'), 'children': ('connects', 'ConnectionPoint'), 'links': ('connects', 'Link'),
             'connected_interfaces': ('connects', 'ConnectionPoint')}
-    for var, pr in want.items():
-        if var not in assigns or assigns[var][1] != pr:
-            rep.violation(rule, loc(amod, rc), fq, f'{var} is not collected through {pr}', f'remove_cp_and_links must look at {var} through {pr}')
+    for role, pr in want.items():
+        if role not in roles:
+            rep.violation(rule, loc(amod, rc), fq, f'{role} is not collected through {pr}', f'remove_cp_and_links must look at {role} through {pr}')
+    for var, n, pr, src in lookups:
+        if not any(v[1] is n for v in roles.values()):
+            rep.violation(rule, loc(amod, n), fq, f'lookup through {pr} has no role in the removal', f'remove_cp_and_links follows {pr} from an unexpected element')
     # every collected list is iterated (or measured), never only indexed
-    for var, (n, pr) in assigns.items():
-        iterated = any(isinstance(l, ast.For) and ast.unparse(l.iter) == var for l in ast.walk(rc))
-        measured = any(isinstance(c, ast.Call) and call_name(c) == 'len' and c.args and ast.unparse(c.args[0]) == var for c in ast.walk(rc))
-        indexed = [s for s in ast.walk(rc) if isinstance(s, ast.Subscript) and ast.unparse(s.value) == var]
-        rep.instance(rule, f'{fq}: {var}: iterated={iterated} measured={measured} indexed={len(indexed)}')
+
+    def uses(var):
+        iterated = any(isinstance(l, ast.For) and any(isinstance(x, ast.Name) and same(x.id, var) for x in ast.walk(l.iter)) for l in ast.walk(rc))
+        measured = any(isinstance(c, ast.Call) and call_name(c) == 'len' and c.args and isinstance(c.args[0], ast.Name) and same(c.args[0].id, var) for c in ast.walk(rc))
+        indexed = [s_ for s_ in ast.walk(rc) if isinstance(s_, ast.Subscript) and isinstance(s_.value, ast.Name) and same(s_.value.id, var)]
+        return iterated, measured, indexed
+    for role, (var, n, pr) in roles.items():
+        iterated, measured, indexed = uses(var)
+        rep.instance(rule, f'{fq}: {role}: iterated={iterated} measured={measured} indexed={len(indexed)}')
         if not iterated and not measured:
-            rep.violation(rule, loc(amod, n), fq, f'{var} is collected but only {"indexed" if indexed else "ignored"}',
-                          f'only one element of {var} is handled: with several (e.g. a dedicated port with two or more sub-interfaces) '
+            rep.violation(rule, loc(amod, n), fq, f'{role} is collected but only {"indexed" if indexed else "ignored"}',
+                          f'only one element of {role} is handled: with several (e.g. a dedicated port with two or more sub-interfaces) '
                           f'the others stay in the model without an owner')
-        if indexed and var in ('parents', 'links'):
-            rep.violation(rule, loc(amod, indexed[0]), fq, f'{norm(indexed[0])} used instead of iterating {var}',
-                          f'only the first element of {var} is handled')
-    conds = {}
-    for n in ast.walk(rc):
-        if isinstance(n, ast.If):
-            t = ast.unparse(n.test)
-            if 'len(children)' in t:
-                conds['children'] = n
-            if 'len(connected_interfaces)' in t:
-                conds['links'] = n
-    rep.instance(rule, f'{fq}: sharing conditions {[norm(c.test) for c in conds.values()]}')
-    ch = conds.get('children')
-    if ch is None or ast.unparse(ch.test).replace(' ', '') not in ('len(children)==1anddelete_parent', 'delete_parentandlen(children)==1'):
+        if indexed and role in ('parents', 'links'):
+            rep.violation(rule, loc(amod, indexed[0]), fq, f'only one element of {role} is used instead of iterating them',
+                          f'only the first element of {role} is handled')
+    # the two sharing conditions
+
+    def cond_on_len(var):
+        for n in ast.walk(rc):
+            if isinstance(n, ast.If) and any(isinstance(c, ast.Call) and call_name(c) == 'len' and c.args and isinstance(c.args[0], ast.Name) and same(c.args[0].id, var)
+                                             for c in ast.walk(n.test)):
+                return n
+        return None
+
+    def len_eq(cj, var, k):
+        return isinstance(cj, ast.Compare) and len(cj.ops) == 1 and isinstance(cj.ops[0], ast.Eq) and isinstance(cj.left, ast.Call) and call_name(cj.left) == 'len' \
+            and cj.left.args and isinstance(cj.left.args[0], ast.Name) and same(cj.left.args[0].id, var) and isinstance(cj.comparators[0], ast.Constant) \
+            and cj.comparators[0].value == k
+    ch = cond_on_len(roles['children'][0]) if 'children' in roles else None
+    lk = cond_on_len(roles['connected_interfaces'][0]) if 'connected_interfaces' in roles else None
+    rep.instance(rule, f'{fq}: sharing conditions {[norm(c.test) for c in (ch, lk) if c is not None]}')
+    okc = False
+    if ch is not None:
+        cjs = conjuncts(canon(ch.test))
+        okc = len(cjs) == 2 and any(len_eq(c, roles['children'][0], 1) for c in cjs) and any(isinstance(c, ast.Name) and c.id == 'delete_parent' for c in cjs)
+    if not okc:
         rep.violation(rule, loc(amod, ch or rc), fq, f'parent condition {norm(ch.test) if ch else None}',
                       'a parent interface goes with its child only when that child is its only one and the caller allows it')
-    lk = conds.get('links')
-    if lk is None or ast.unparse(lk.test).replace(' ', '') != 'len(connected_interfaces)==2':
+    okl = False
+    if lk is not None:
+        cjs = conjuncts(canon(lk.test))
+        okl = len(cjs) == 1 and len_eq(cjs[0], roles['connected_interfaces'][0], 2)
+    if not okl:
         rep.violation(rule, loc(amod, lk or rc), fq, f'link condition {norm(lk.test) if lk else None}',
                       'a link goes with a removed interface only when exactly one other interface is attached to it; a link '
                       'shared by three or more interfaces must survive the removal of one end')
-    dp = [a for a in rc.args.args if a.arg == 'delete_parent']
-    dflt = rc.args.defaults[-1] if rc.args.defaults else None
+    dp = [a for a in rc0.args.args if a.arg == 'delete_parent']
+    dflt = rc0.args.defaults[-1] if rc0.args.defaults else None
     if not dp or not (isinstance(dflt, ast.Constant) and dflt.value is True):
         rep.violation(rule, loc(amod, rc), fq, 'delete_parent parameter', 'remove_cp_and_links must keep its delete_parent switch (default True)')
-    final = [l for l in ast.walk(rc) if isinstance(l, ast.For) and 'interfaces_to_delete' in ast.unparse(l.iter) and 'links_to_delete' in ast.unparse(l.iter)]
-    if not final or not any(isinstance(c, ast.Call) and call_name(c) == 'delete_node' for c in ast.walk(final[0])):
+    # the two collected sets are deleted
+    dels = [c for c in ast.walk(rc) if isinstance(c, ast.Call) and call_name(c) == 'delete_node']
+    deleted_sets = set()
+    for c in dels:
+        for l in _ancestors_of(c, rc):
+            if isinstance(l, ast.For):
+                deleted_sets |= {find(x.id) for x in ast.walk(l.iter) if isinstance(x, ast.Name)}
+    need = []
+    for c in ast.walk(rc):
+        if isinstance(c, ast.Call) and call_name(c) == 'add' and isinstance(c.func.value, ast.Name) and c.args and isinstance(c.args[0], ast.Name):
+            need.append(find(c.func.value.id))
+    if not dels or not need or not set(need) <= deleted_sets:
         rep.violation(rule, loc(amod, rc), fq, 'collected interfaces and links not deleted', 'the collected sets must be deleted')
+
+
+def _ancestors_of(node, fn):
+    p = getattr(node, '_parent', None)
+    while p is not None and p is not fn:
+        yield p
+        p = getattr(p, '_parent', None)
+
+
+def _never_cached(fn, rc, rid):
+    """The removed id is `<X>.node_id` of an element X constructed in this function (etype NEW) that is put on a handle cache
+    only by an explicit `._interfaces.append(X)` which cannot have run before the removal (no CFG path append -> removal)."""
+    if not (isinstance(rid, ast.Attribute) and rid.attr == 'node_id' and isinstance(rid.value, ast.Name)):
+        return False
+    x = rid.value.id
+    created = [n for n in walk_no_nested(fn) if isinstance(n, ast.Assign) and any(isinstance(t, ast.Name) and t.id == x for t in n.targets)
+               and isinstance(n.value, ast.Call) and isinstance(n.value.func, ast.Name) and
+               any(k.arg == 'etype' and 'NEW' in ast.unparse(k.value) for k in n.value.keywords)]
+    others = [n for n in walk_no_nested(fn) if isinstance(n, ast.Assign) and any(isinstance(t, ast.Name) and t.id == x for t in n.targets)]
+    if not created or len(others) != len(created):
+        return False
+    appends = [c for c in walk_no_nested(fn) if isinstance(c, ast.Call) and call_name(c) in ('append', 'add', 'insert', 'extend') and
+               any(isinstance(a, ast.Name) and a.id == x for a in ast.walk(c))]
+    if not appends:
+        return True
+    from ..cfg import CFG
+    from .. import flow
+    cfg = CFG(fn)
+    target = flow.node_of(cfg, rc)
+    for ap in appends:
+        start = flow.node_of(cfg, ap)
+        if start is None or target is None:
+            return False
+        seen, stack = set(), [start]
+        while stack:
+            n = stack.pop()
+            if n.id in seen:
+                continue
+            seen.add(n.id)
+            stack.extend(s_ for s_, _ in n.succ)
+        if target.id in seen:
+            return False
+    return True
 
 
 UNS = 'fim/user/network_service.py'
